@@ -590,6 +590,15 @@ fn attributes(node: dom::XmlNode) -> Vec<dom::XmlNode> {
 fn child(node: dom::XmlNode) -> Vec<dom::XmlNode> {
     let mut nodes = vec![];
 
+    // attribute and namespace nodes have no children in the XPath data model
+    // (the DOM keeps the pieces of an attribute value as child nodes)
+    if matches!(
+        node,
+        dom::XmlNode::Attribute(_) | dom::XmlNode::Namespace(_)
+    ) {
+        return nodes;
+    }
+
     for c in node.child_nodes().iter() {
         if in_data_model(&c) {
             nodes.push(c.clone());
